@@ -365,9 +365,11 @@ func (c *Ctx) ruleNoUpperBound(rule string, specs ...string) {
 					continue
 				}
 				// the compared value derives from a decoded length/size field
+				// (an arithmetic expression over the field itself, not a counter that was
+				// initialised from it)
 				isLen := false
-				for v := range c.sliceOf(val) {
-					if id := ir.FieldID(v); strings.HasSuffix(id, ".Length") || strings.HasSuffix(id, ".ListSize") || strings.HasSuffix(id, ".Size") && strings.Contains(id, "Signature") {
+				for sym, cf := range affineOf(val, 0).T {
+					if cf > 0 && (strings.HasSuffix(sym, ".Length") || strings.HasSuffix(sym, ".ListSize")) {
 						isLen = true
 					}
 				}
